@@ -284,6 +284,8 @@ func run(tapeJSON json.RawMessage, res *core.Result) {
 	reqsInOp := 0
 	engine.AbortHook = func(kind, detail string, r *core.Result) {
 		switch kind {
+		case "dial-flood":
+			engine.Violate(r, "unbounded-connection-attempts", map[string]string{"detail": detail})
 		case "request-flood":
 			engine.Violate(r, "referral.unbounded", map[string]string{"detail": detail, "config": fmt.Sprintf("chain=%d cycle=%v", tp.Chain, tp.Cycle)})
 		case "request-budget":
@@ -316,14 +318,51 @@ func run(tapeJSON json.RawMessage, res *core.Result) {
 		}
 		return reply
 	}
+	dialsInOp, dialsInRun := 0, 0
+	net.OnDial = func(proto, addr string) {
+		dialsInRun++
+		if dialsInRun > 60000 {
+			simrt.Abort("request-budget", fmt.Sprintf("%d connection attempts within one run", dialsInRun))
+		}
+		if simrt.Cur().ID == 1 {
+			dialsInOp++
+			if dialsInOp > 1000 {
+				simrt.Abort("dial-flood", fmt.Sprintf("%d connection attempts within one operation", dialsInOp))
+			}
+		}
+	}
 	// ---- the workload
 	recs := make([]opRec, 0, len(tp.Ops))
 	destroyedAt := int64(-1)
+	var outages [][2]int64 // [down, up) in simulated ns; up = -1 while the outage lasts
 	sched := simrt.Sched{Seed: tp.RunSeed, Mode: []string{"min", "fast", "mixed"}[tp.RunSeed%3]}
 	done := simrt.Spawn(1, "user", sched, func() {
 		for i, op := range tp.Ops {
 			r := opRec{I: i, Op: op.Op, SPN: op.SPN}
 			switch op.Op {
+			case "net_down":
+				if n := len(outages); n > 0 && outages[n-1][1] < 0 {
+					continue
+				}
+				b := world.Behaviour{Kind: op.Fault}
+				switch op.Fault {
+				case "close-mid":
+					b = world.Behaviour{Kind: "close", Arg: 6}
+				case "refuse", "silent", "close":
+				default:
+					b.Kind = "refuse"
+				}
+				net.Down.Store(&b)
+				outages = append(outages, [2]int64{simrt.NowNs(), -1})
+				simrt.Logf("network outage begins (%s)", op.Fault)
+				continue
+			case "net_up":
+				if n := len(outages); n > 0 && outages[n-1][1] < 0 {
+					net.Down.Store(nil)
+					outages[n-1][1] = simrt.NowNs()
+					simrt.Logf("network outage ends")
+				}
+				continue
 			case "sleep":
 				if op.Ns > 0 && op.Ns < int64(30*24*time.Hour) {
 					simrt.SleepNs(op.Ns, "wait")
@@ -363,7 +402,7 @@ func run(tapeJSON json.RawMessage, res *core.Result) {
 				continue
 			}
 			r.Invoke = simrt.NowNs()
-			reqsInOp = 0
+			reqsInOp, dialsInOp = 0, 0
 			simrt.Logf("invoke #%d %s %s", i, op.Op, op.SPN)
 			var e error
 			panicked, frame, msg := engine.Guard(func() {
@@ -436,6 +475,14 @@ func run(tapeJSON json.RawMessage, res *core.Result) {
 	localAddrs, _ := types.LocalHostAddresses()
 	nonces := map[int64]int{}
 	lastVerdict := map[int]string{}
+	firstWrite := map[string]int64{} // request bytes -> instant of their first transmission to any endpoint
+	for _, ev := range net.Events() {
+		if ev.What == "request" {
+			if _, ok := firstWrite[ev.ReqID]; !ok {
+				firstWrite[ev.ReqID] = ev.At
+			}
+		}
+	}
 	var hintsAt time.Time // when the KDC first answered an AS request of this client with its pre-authentication hints
 	for _, rq := range reqs {
 		res.Evals++
@@ -481,7 +528,16 @@ func run(tapeJSON json.RawMessage, res *core.Result) {
 		if as && renew {
 			viol("asreq.options.renew-set", d)
 		}
+		// the times in a request are those of its construction: a request that reaches the KDC only
+		// after transmissions to other servers or over the other transport have timed out (an outage)
+		// is older by what those attempts took
 		tol := 3 * time.Second
+		if fw, ok := firstWrite[world.ReqID(rq.Raw)]; ok && at(rq.At) > fw {
+			tol += time.Duration(at(rq.At) - fw)
+			if at(rq.At)-fw > int64(time.Second) {
+				res.Stats["requests_delivered_after_failed_transmissions"]++
+			}
+		}
 		if x := q.Till.Sub(rq.At.Add(tktLife)); x > tol || x < -tol {
 			d["till"], d["expected"] = q.Till, rq.At.Add(tktLife)
 			viol(name+".till", d)
@@ -579,13 +635,38 @@ func run(tapeJSON json.RawMessage, res *core.Result) {
 			res.Stats["kdc_refused_"+strings.TrimPrefix(rq.Verdict, "error:")]++
 		}
 		lastVerdict[rq.Task] = rq.Verdict
-		if rq.Req.MsgType == rk.MsgASReq && rq.Realm == "SIM.TEST" && (rq.Verdict == "error:25" || rq.Verdict == "error:24") && hintsAt.IsZero() {
+		replyLost := false // the request reached the KDC during an outage of the kind that loses the replies
+		for _, o := range outages {
+			replyLost = replyLost || (at(rq.At) >= o[0] && (o[1] < 0 || at(rq.At) < o[1]+int64(time.Second)))
+		}
+		if replyLost {
+			lastVerdict[rq.Task] = "reply-lost"
+			res.Stats["kdc_replies_lost_in_outage"]++
+		}
+		if rq.Req.MsgType == rk.MsgASReq && rq.Realm == "SIM.TEST" && (rq.Verdict == "error:25" || rq.Verdict == "error:24") && hintsAt.IsZero() && !replyLost {
 			hintsAt = rq.At
 		}
 	}
 	for _, c := range nonces {
 		if c > 1 {
 			res.Stats["nonce_reused"] += int64(c - 1)
+		}
+	}
+	for _, o := range outages {
+		up := o[1]
+		if up < 0 {
+			up = simrt.NowNs()
+		}
+		for _, is := range issues {
+			if is.SName != "krbtgt/SIM.TEST" || is.Realm != "SIM.TEST" || at(is.At) > o[0] {
+				continue
+			}
+			if e := at(is.End); e >= o[0] && e < up {
+				res.Probes["tgt-ended-during-outage"]++
+			}
+			if rp := at(is.At) + int64(is.End.Sub(is.At))*5/6; rp >= o[0] && rp < up {
+				res.Probes["renewal-point-passed-during-outage"]++
+			}
 		}
 	}
 	// (b) what the caller got
@@ -599,6 +680,26 @@ func run(tapeJSON json.RawMessage, res *core.Result) {
 		afterDestroy := destroyedAt >= 0 && r.Invoke >= destroyedAt
 		if afterDestroy && r.Op != "destroy" {
 			res.Probes["destroy-then-use"]++
+		}
+		// an operation that overlaps a network outage may fail (it must still never return a wrong
+		// ticket); one invoked after the outage has ended is owed everything again
+		duringOutage, afterOutage := false, false
+		for _, o := range outages {
+			if r.Return >= o[0] && (o[1] < 0 || r.Invoke < o[1]) {
+				duringOutage = true
+			}
+			if o[1] >= 0 && r.Invoke >= o[1] {
+				afterOutage = true
+			}
+		}
+		if duringOutage {
+			res.Probes["operation-during-outage"]++
+			if !r.OK {
+				res.Stats["failed_during_outage"]++
+			}
+			afterDestroy = afterDestroy || !r.OK // judged like an operation that is owed nothing, when it failed
+		} else if afterOutage && r.Op != "destroy" {
+			res.Probes["operation-after-outage"]++
 		}
 		nreq, ntgs := 0, 0
 		for _, rq := range reqs {
